@@ -360,6 +360,22 @@ def templates():
     r = json.loads(out.stdout)
     return {"A": A, "local": r["local"], "ok": r["reqs"][0], "hint": r["reqs"][1], "other": r["reqs"][2], "preimages": r["preimages"]}
 
+def crowd_templates(n):
+    """request templates for n payments of n distinct hashes (h7, h8, ...: hashes only this scenario uses)"""
+    A = 1000
+    scen = {"cfg": {"base": 0, "ppm": 0, "pdelta": 40, "sdelta": 10, "mpp": 60},
+            "invs": [{"hash": "h%d" % (7 + k), "amt": A} for k in range(n)],
+            "htlcs": [{"hash": "h%d" % (7 + k), "inv": k + 1, "amt": A, "total": A, "exp": 1000, "rel": 500} for k in range(n)], "probe": []}
+    p = VERIF + "/work/e2e_crowd" + run.TAG + ".json"
+    json.dump(scen, open(p, "w"))
+    out = subprocess.run([run.VFH, "mkreq", p], capture_output=True, text=True)
+    if out.returncode != 0:
+        raise run.ToolError("vfh mkreq failed: " + out.stderr[-1000:])
+    reqs = json.loads(out.stdout)["reqs"]
+    if len(set(q["htlc"]["payment_hash"] for q in reqs)) != n:
+        raise run.ToolError("crowd templates: hashes not distinct")
+    return reqs
+
 def patched(tmpl, rid, htlc_id, amount, total, exp, rel):
     q = json.loads(json.dumps(tmpl))
     q["htlc"]["id"] = htlc_id; q["htlc"]["amount_msat"] = amount; q["htlc"]["cltv_expiry"] = exp; q["htlc"]["cltv_expiry_relative"] = rel
@@ -595,6 +611,39 @@ def iso_check(seed, tier, wd):
             fr = pl.read_frames(lambda f: any(ok and o.get("id") == "B1" for ok, o in f), 15.0)
             fr = [(ok, o) for ok, o in fr if not (ok and isinstance(o.get("id"), str) and o.get("id", "").startswith("A"))]
             recs.append({"ev": "e2e", "run": runno, "sent": ['"B1"'], "leftover": pl.leftover(), "a_parts": nA,
+                         "expect": [{"id": '"B1"', "result": "resolve"}],
+                         "frames": [{"json": ok, "id": json.dumps(o.get("id")) if ok and "id" in o else "none",
+                                     "kind": ("result" if ok and "result" in o else "error" if ok and "error" in o else "notification" if ok and "method" in o else "garbage"),
+                                     "result": (o.get("result", {}).get("result", "") if ok and isinstance(o.get("result"), dict) else "")}
+                                    for ok, o in fr if not (ok and o.get("method") == "log")]})
+        finally:
+            pl.close()
+    # a crowd: many payments of distinct hashes, each an incomplete set waiting for its MPP timeout (the table and
+    # whatever else is shared between hashes is well filled); payment B must still be settled at once
+    for runno, nC in enumerate(((150,) if tier == "quick" else (150, 245)), len(recs) + 1):
+        crowd = crowd_templates(nC)
+        pl = Plugin(options={OPT[k]: v for k, v in dict(DEFAULTS, mpp=60).items()}, height=1000)
+        pl.node.node_id = T["local"]
+        try:
+            preB = T["preimages"][2]
+            pl.node.pay_mode = "complete:" + preB
+            if pl.handshake() != "ok":
+                raise run.ToolError("real binary did not start for the isolation scenario")
+            A = T["A"]; need = A + A * 5000 // 10**6
+            # (written by a thread while the output is read: the plugin logs a line per HTLC, and nobody reading its
+            # stdout while this side blocks writing its stdin would be a deadlock of the harness, not of the plugin)
+            data = b"".join((json.dumps(patched(q, "C%d" % k, k + 1, need // 2, need, 1000 + 34 + 1008 + 500, 70000)) + "\n\n").encode()
+                            for k, q in enumerate(crowd))
+            th = threading.Thread(target=pl.send_raw, args=(data,), daemon=True)
+            th.start()
+            pl.read_frames(lambda f: not th.is_alive(), 30.0)
+            if th.is_alive():
+                raise run.ToolError("isolation scenario: the plugin did not take the crowd's requests within 30 s")
+            pl.read_frames(None, 1.0)
+            pl.send(patched(T["other"], "B1", 5000, need, need, 1000 + 34 + 1008 + 500, 70000))
+            fr = pl.read_frames(lambda f: any(ok and o.get("id") == "B1" for ok, o in f), 20.0)
+            fr = [(ok, o) for ok, o in fr if not (ok and isinstance(o.get("id"), str) and o.get("id", "").startswith("C"))]
+            recs.append({"ev": "e2e", "run": runno, "sent": ['"B1"'], "leftover": pl.leftover(), "a_parts": nC,
                          "expect": [{"id": '"B1"', "result": "resolve"}],
                          "frames": [{"json": ok, "id": json.dumps(o.get("id")) if ok and "id" in o else "none",
                                      "kind": ("result" if ok and "result" in o else "error" if ok and "error" in o else "notification" if ok and "method" in o else "garbage"),
